@@ -111,7 +111,7 @@ class Oracle:
                 from hidc.lexer import Span, Cursor
                 return a.VariableLookup(a.UnresolvedName('x'), Span(Cursor(0, 0), Cursor(0, 1)))
             return V.Sym('node:' + name, span=self.span(), preemptive=V.Sym('preemptive'), token=V.Sym('tok'), type=V.Sym('type'),
-                         const=V.Sym('const'))
+                         const=V.Sym('const'), origin=(name, tuple(f.args)))
         raise V.OutsideSubset(f'await of {obj!r}')
 
 
@@ -179,6 +179,15 @@ def ob_context_threading(rule):
             npaths += 1
             if pr.outcome == 'raise' and not isinstance(pr.value, e.ParserError):
                 bad.append({'ctx': repr(ctx), 'raises': repr(pr.value), 'matched': [str(x) for x in matched(pr)]}); continue
+            if rule == 'ps_expr' and pr.outcome == 'return' and isinstance(pr.value, a.Speculation):
+                # both operands of the node that is *returned* must be the ones parsed in the restricted context
+                want = g.BlockContext((int(ctx) & 16) | 1)
+                for side in ('left', 'right'):
+                    node_ = getattr(pr.value, side)
+                    org = node_._attrs.get('origin') if isinstance(node_, V.Sym) else None
+                    if org is None or org[0] != 'ps_expr8' or org[1] != (want,):
+                        bad.append({'ctx': repr(ctx), 'problem': f'the {side} operand of the Speculation node was not parsed by ps_expr8 in the ordinary-calls-only context',
+                                    'operand_parsed_by': repr(org)})
             toks = []
             k = 0
             for ev in pr.trace:
